@@ -844,6 +844,9 @@ MUTANTS.append(dict(prop="C08", name="repair:F20-refusal-deferred-until-all-entr
 MUTANTS.append(dict(prop="C15", name="repair:F21-default-port-only-when-port-is-none", patch="selftest/patches/f21_repair.diff", rule=None, benign=True))
 # ---- C13-R10 / F22a: urllib3's chunk reader repaired (hex-digits pattern before int): its obligation is silent (F22b, the stdlib reader, stays)
 MUTANTS.append(dict(prop="C13", name="repair:F22a-chunk-size-shape-tested-before-int", patch="selftest/patches/f22a_repair.diff", rule=None, benign=True))
+# ---- C12-R4 / F23 (fixed in /repo): the reverse of the fix must fire
+MUTANTS.append(dict(prop="C12", name="fixed:F23-multidecoder-flush-reaches-one-layer-only", patch="selftest/patches/f23_fix.diff", reverse=True, rule="C12-R4", benign=False))
+MUTANTS.append(dict(prop="C13", name="fixed:F23-multidecoder-flush-reaches-one-layer-only", patch="selftest/patches/f23_fix.diff", reverse=True, rule="C13-R4", benign=False))
 MUTANTS.append(dict(prop="C13", name="fixed:F19-stale-flush-flag-in-read-refill-loop", patch="selftest/patches/f19_fix.diff", reverse=True, rule="C12-R6", benign=False))
 MUTANTS.append(dict(prop="C12", name="fixed:F19-stale-flush-flag-in-read-refill-loop", patch="selftest/patches/f19_fix.diff", reverse=True, rule="C12-R6", benign=False))
 S("C07", "matcher-loses-end-anchor", "C08-R1")
